@@ -698,10 +698,13 @@ func cmdCheck(args []string) int {
 // have not become vacuous on the current tree. Results go to the evidence; they do not change the
 // exit status (a change that no longer applies to the current tree is skipped).
 func runCanaries(prop, repo string) []map[string]any {
-	var out []map[string]any
 	dirs, _ := filepath.Glob(filepath.Join(verifDir, "seeded", "*", "meta.json"))
 	sort.Strings(dirs)
 	self, _ := os.Executable()
+	type item struct {
+		id, patch string
+	}
+	var items []item
 	for _, mf := range dirs {
 		b, err := os.ReadFile(mf)
 		if err != nil {
@@ -714,39 +717,54 @@ func runCanaries(prop, repo string) []map[string]any {
 		if json.Unmarshal(b, &meta) != nil || meta.Property != prop {
 			continue
 		}
-		res := map[string]any{"seeded": meta.ID}
+		items = append(items, item{meta.ID, filepath.Join(filepath.Dir(mf), "patch.diff")})
+	}
+	results := make([]map[string]any, len(items))
+	one := func(k int) {
+		it := items[k]
+		res := map[string]any{"seeded": it.id}
+		results[k] = res
 		tmp, err := os.MkdirTemp("", "govc_canary_")
 		if err != nil {
-			continue
-		}
-		cp := exec.Command("cp", "-r", repo+"/.", tmp)
-		if err := cp.Run(); err != nil {
-			os.RemoveAll(tmp)
-			continue
-		}
-		ap := exec.Command("git", "-C", tmp, "apply", filepath.Join(filepath.Dir(mf), "patch.diff"))
-		if err := ap.Run(); err != nil {
 			res["applied"] = false
-			out = append(out, res)
-			os.RemoveAll(tmp)
-			continue
+			return
+		}
+		defer os.RemoveAll(tmp)
+		if err := exec.Command("cp", "-r", repo+"/.", tmp).Run(); err != nil {
+			res["applied"] = false
+			return
+		}
+		if err := exec.Command("git", "-C", tmp, "apply", it.patch).Run(); err != nil {
+			res["applied"] = false
+			return
 		}
 		res["applied"] = true
 		ctx, cancel := context.WithTimeout(context.Background(), 15*time.Minute)
+		defer cancel()
 		cmd := exec.CommandContext(ctx, self, "check", "--property", prop, "--tier", "quick", "--no-evidence", "--repo", tmp)
 		cmd.Env = append(os.Environ(), "GOVC_NO_CANARIES=1", "GOVC_REPLAY_DIR="+filepath.Join(tmp, ".govc_replays"), "VERIF_TIER=quick")
 		ob, _ := cmd.CombinedOutput()
-		cancel()
-		n := strings.Count(string(ob), "\nVIOLATION ") 
+		n := strings.Count(string(ob), "\nVIOLATION ")
 		if strings.HasPrefix(string(ob), "VIOLATION ") {
 			n++
 		}
 		res["violations_reported"] = n
 		res["caught"] = n > 0 && cmd.ProcessState != nil && cmd.ProcessState.ExitCode() == 1
-		out = append(out, res)
-		os.RemoveAll(tmp)
 	}
-	return out
+	// three canaries at a time (each is a full quick check that uses all cores for its solver runs)
+	sem := make(chan struct{}, 3)
+	var wg sync.WaitGroup
+	for k := range items {
+		wg.Add(1)
+		sem <- struct{}{}
+		go func(k int) {
+			defer wg.Done()
+			defer func() { <-sem }()
+			one(k)
+		}(k)
+	}
+	wg.Wait()
+	return results
 }
 
 // cmdLocals prints (for the contract files) which local each local name used in a contract denotes
